@@ -249,8 +249,15 @@ impl InnerNodeManage {
         if self.all_nodes.is_empty() {
             ProcessRange::new(0, 1)
         } else {
+            // the slot of this node is its position among the VALID nodes, the same list
+            // route_addr() indexes with `hash % valid_count`
+            let index = self
+                .all_nodes
+                .values()
+                .filter(|v| v.is_valid() && v.id < self.local_id)
+                .count();
             ProcessRange::new(
-                self.get_this_node().index as usize,
+                index,
                 self.all_nodes.iter().filter(|(_, v)| v.is_valid()).count(),
             )
         }
